@@ -319,6 +319,34 @@ def shard(ctx, k, payload):
                     if mode == 'overlong' and data.draw(st.integers(0, 3)) == 0:
                         t = t + 'X' * data.draw(st.sampled_from([10, 30, 60]))
                     inputs[key] = t.replace('%', '%%')
+        if '1098:0.box_1' in inputs and data.draw(st.integers(0, 2)) == 0:
+            # tie: move the mortgage interest so that the itemized total equals the standard deduction to the dollar
+            # (N.C. or federal); which forms are filed must still follow the line the return claims
+            which = data.draw(st.sampled_from([('nc_d-400_sa.10', 'nc_d-400_sa.nc_standard_deduction'), ('1040_sa.17', None)]))
+            cur, rr = dict(inputs), r0
+            for _ in range(3):
+                vals_ = rr.values
+                item = vals_.get(which[0])
+                std = vals_.get(which[1]) if which[1] else None
+                if which[1] is None and '1040.12' in vals_ and not vals_.get('1040.itemizing'):
+                    std = vals_.get('1040.12')
+                if not isinstance(item, (int, float)) or not isinstance(std, (int, float)) or item == std:
+                    break
+                try:
+                    nb = round(float(cur['1098:0.box_1'].strip() or 0) + (float(std) - float(item)), 2)
+                except ValueError:
+                    break
+                if nb < 0:
+                    break
+                cur['1098:0.box_1'] = f'{nb:.2f}'
+                rr = scenario.resolve({'year': sc['year'], 'forms': sc['forms'], 'inputs': cur}, want_solution=False)
+                if rr.exc is not None or not rr.verdict:
+                    break
+            if rr.exc is None and rr.verdict and isinstance(rr.values.get(which[0]), (int, float)):
+                std_ = rr.values.get(which[1]) if which[1] else rr.values.get('1040.12')
+                if std_ == rr.values.get(which[0]):
+                    ctx.count('tie:' + which[0])
+                    inputs = cur
         sc2 = {'year': sc['year'], 'forms': sc['forms'], 'inputs': inputs}
         ctx.case()
         labels = check_fill(ctx, sc2, {'scenario': sc2})
